@@ -396,6 +396,7 @@ def gen_image(rng, profile='c01', w=None):
         tags.append('magic_wired')
 
     case = img.to_case()
+    case['file_order'] = rng.choice(['asc', 'asc', 'desc', f'shuffle:{rng.getrandbits(16)}'])
     case['version'] = rng.choice([0, 1, 1, 2, 2, 3])
     case['lzma_preset'] = rng.choice([0, 0, 0, 1, 6])
     meta = {'tags': tags, 'ops': op_ips, 'pool': pool, 'in_seg_bits': in_seg_bits, 'wiring': wiring}
